@@ -56,7 +56,7 @@ func verifC04Cut(name string, ts []int64, vs []float64) []storepb.AggrChunk {
 		return []storepb.AggrChunk{verifC04Chunk(ts, vs)}
 	}
 	from := cut
-	if verifIntRange(name+"_overlap", 0, 1) == 1 {
+	if verifParam("NOOVERLAP", 0) == 0 && verifIntRange(name+"_overlap", 0, 1) == 1 {
 		from = cut - 1
 		verifC04Overlap = true
 		verifReach("overlapping-chunks")
@@ -66,12 +66,55 @@ func verifC04Cut(name string, ts []int64, vs []float64) []storepb.AggrChunk {
 
 var verifC04Overlap bool
 
+// the second store's copy: up to three adjacent chunks
+func verifC04Cut3(name string, ts []int64, vs []float64) []storepb.AggrChunk {
+	n := len(ts)
+	c1 := verifIntRange(name+"_cut1", 1, n) // first chunk holds c1 samples
+	if c1 == n {
+		return []storepb.AggrChunk{verifC04Chunk(ts, vs)}
+	}
+	c2 := verifIntRange(name+"_cut2", c1+1, n) // second chunk ends before c2
+	out := []storepb.AggrChunk{verifC04Chunk(ts[:c1], vs[:c1]), verifC04Chunk(ts[c1:c2], vs[c1:c2])}
+	if c2 < n {
+		out = append(out, verifC04Chunk(ts[c2:], vs[c2:]))
+		verifReach("three-chunks")
+	}
+	return out
+}
+
+func verifC04Insert(all []storepb.AggrChunk, c storepb.AggrChunk) []storepb.AggrChunk {
+	at := len(all)
+	for at > 0 && !verifC04Before(all[at-1], c) {
+		at--
+	}
+	all = append(all, storepb.AggrChunk{})
+	copy(all[at+1:], all[at:])
+	all[at] = c
+	return all
+}
+
+// the chunks of one replica as the fan-out delivers them: its stream cut once, or (TWICE=1, explored) held by two
+// stores that cut it differently, merged by time
+func verifC04Replica(l, r int, ts []int64, vs []float64) []storepb.AggrChunk {
+	out := verifC04Cut(verifName("cut", l, r), ts, vs)
+	if verifParam("TWICE", 0) == 1 && verifIntRange(verifName("twoStores", l, r), 0, 1) == 1 {
+		for _, c := range verifC04Cut3(verifName("cutB", l, r), ts, vs) {
+			out = verifC04Insert(out, c)
+		}
+		verifReach("replica-on-two-stores")
+	}
+	return out
+}
+
 func verifC04Before(a, b storepb.AggrChunk) bool {
 	if a.MinTime != b.MinTime {
 		return a.MinTime < b.MinTime
 	}
 	return a.MaxTime <= b.MaxTime
 }
+
+// VerifC04TwoStores: one replica held by two stores with different chunk cuts (up to 4 chunks per series)
+func VerifC04TwoStores() { VerifC04Querier() }
 
 // VerifC04Querier (C04): the querier half of the read path. Dedup on: one series per label set, exactly the
 // replicated samples whatever the chunk cuts; dedup off: every replica its own series with its own samples.
@@ -81,7 +124,14 @@ func VerifC04Querier() {
 	nl := verifIntRange("logical", 1, verifParam("LOGICAL", 2))
 	nr := verifIntRange("replicas", 1, verifParam("REPLICAS", 2))
 	maxN := verifParam("SAMPLES", 3)
-	dedupOn := verifIntRange("dedup", 0, 1) == 1
+	var dedupOn bool
+	switch verifParam("DEDUP", -1) {
+	case 0:
+	case 1:
+		dedupOn = true
+	default:
+		dedupOn = verifIntRange("dedup", 0, 1) == 1
+	}
 	const lim = int64(1) << 40
 
 	type logical struct {
@@ -121,14 +171,8 @@ func VerifC04Querier() {
 			// stores strip the replica label; the proxy merges the replicas' chunks of the label set by time
 			var all []storepb.AggrChunk
 			for r := 0; r < nr; r++ {
-				for _, c := range verifC04Cut(verifName("cut", l, r), x.ts, x.vs[r]) {
-					at := len(all)
-					for at > 0 && !verifC04Before(all[at-1], c) {
-						at--
-					}
-					all = append(all, storepb.AggrChunk{})
-					copy(all[at+1:], all[at:])
-					all[at] = c
+				for _, c := range verifC04Replica(l, r, x.ts, x.vs[r]) {
+					all = verifC04Insert(all, c)
 				}
 			}
 			px.series = append(px.series, &storepb.Series{Labels: []labelpb.ZLabel{{Name: "a", Value: x.lv}}, Chunks: all})
@@ -136,7 +180,7 @@ func VerifC04Querier() {
 			for r := 0; r < nr; r++ {
 				px.series = append(px.series, &storepb.Series{
 					Labels: []labelpb.ZLabel{{Name: "a", Value: x.lv}, {Name: "r", Value: [2]string{"0", "1"}[r]}},
-					Chunks: verifC04Cut(verifName("cut", l, r), x.ts, x.vs[r])})
+					Chunks: verifC04Replica(l, r, x.ts, x.vs[r])})
 			}
 		}
 	}
